@@ -100,7 +100,20 @@ def fit(ds, cfg, est=None, cache=None):
     except Exception as e:                      # noqa
         return dict(error=type(e).__name__, error_msg=str(e)[:200])
     msg, why = X4.regression_message(ds, cfg, Yh)
-    return dict(est=est, Ym=Ym, Yh=Yh, W=W, reg_msg=msg, reg_ref=why)
+    out = dict(est=est, Ym=Ym, Yh=Yh, W=W, reg_msg=msg, reg_ref=why)
+    if cfg.get("Wjunk") is not None and cfg["reg"] not in ("pre_W", "pre_noW"):
+        # "W passed although ignored": the fitted state must be the one of the fit without W, bit for
+        # bit (fit reads W only when regressor='precomputed').  A fresh object is used for the twin.
+        try:
+            twin = X4.fit_impl(ds, {k: v for k, v in cfg.items() if not k.startswith("Wjunk")})[0]
+            a, b = X4.state_of(est), X4.state_of(twin)
+            bad = [k for k in sorted(set(a) | set(b))
+                   if not (np.array_equal(a.get(k), b.get(k)) if isinstance(a.get(k), np.ndarray) and isinstance(b.get(k), np.ndarray)
+                           else a.get(k) == b.get(k))]
+        except Exception as e:                  # noqa
+            bad = ["fit without W raised %s" % type(e).__name__]
+        out["w_ignored_diff"] = bad
+    return out
 
 
 def tolerances(ds, cfg):
@@ -161,6 +174,8 @@ def grid_oracle(ds, base, grid, stats=None):
         if own > best + rtol * tot:
             return ("mixed loss of PCovR's latent space %.12g exceeds the optimum over all %d-dimensional subspaces "
                     "%.12g at mixing %g (excess %.3g of the total sum of squares)" % (own, k, best, a, (own - best) / tot)), pts, skipped
+        if stats is not None and "w_ignored_diff" in r:
+            stats["w_passed_although_ignored_fits"] = stats.get("w_passed_although_ignored_fits", 0) + 1
         pts.append(dict(a=float(a), lx=lx, ly=ly, lY=lY, gap=P.rel_gap(Sk, k), rec=r, Sk=Sk))
     if not pts:
         return None, pts, skipped
@@ -258,6 +273,9 @@ def history_step_message(ds, cfg, r, fresh):
         msg, _ = limits_oracle(ds, cfg, [dict(a=cfg["a"], rec=r)])
         if msg:
             return msg, True
+    if r.get("w_ignored_diff"):
+        return ("with an arbitrary W passed to fit (regressor %s) the fitted state differs from the fit without W: %s"
+                % (cfg["reg"], r["w_ignored_diff"][:6])), False
     diff = X4.state_diff(X4.state_of(r["est"]), X4.state_of(fresh["est"]))
     if diff:
         return "fitted state of the re-used object differs from a fresh estimator's: " + "; ".join(diff[:6]), False
@@ -291,6 +309,78 @@ def mid_solver_case(rng, big):
                 reg=rng.choice(["ridge", "default", "linreg"]), alpha=rng.choice([1e-2, 0.1, 1.0]), y1d=False)
     grid = [0.0, 0.1, 0.3, 0.5, 0.7, 0.9, 1.0]
     return ds, base, grid
+
+
+def fraction_message(ds, cfg):
+    """C04 for n_components = cfg["nc"], a fraction f in (0, 1) or "mle" (full solver).
+    Returns (message or None, found_input, info).  info["skip"] names a gated case."""
+    from sklearn.decomposition import PCA
+    nc, a = cfg["nc"], cfg["a"]
+    base = {k: v for k, v in cfg.items() if k != "nc"}
+    r1 = fit(ds, dict(base, k=1))                 # the regression does not depend on n_components
+    if "error" in r1:
+        return None, True, dict(skip="integer fit raised " + r1["error"])
+    if P.regressor_gate(ds["X"], r1["W"], r1["Yh"]):
+        return None, True, dict(skip="regressor weights ill conditioned")
+    if r1["reg_msg"]:
+        return r1["reg_msg"], True, {}
+    Yh = r1["Yh"]
+    sample = P.is_sample(ds, cfg)
+    mn = P.model_np(ds["X"], Yh, a)
+    S_full, _ = P.top_eig(mn["Kt"] if sample else mn["Ct"])
+    r = fit(ds, cfg)
+    if "error" in r:
+        return "fit(n_components=%r) raised %s: %s" % (nc, r["error"], r["error_msg"]), True, {}
+    est = r["est"]
+    kobs = int(est.n_components_)
+    info = dict(kobs=kobs, S_full=S_full, rec=r, sample=sample, mn=mn)
+    if nc != "mle":
+        kref, dist = X4.resolve_fraction(S_full, nc, ds["n"])
+        info["kref"] = kref
+        if dist < 1e-9:
+            info["skip"] = "fraction within 1e-9 of a cumulative explained-variance ratio"
+            return None, True, info
+        if kobs != kref:
+            return ("n_components=%r at mixing %g resolved to %d components, but the smallest k whose cumulative explained-variance "
+                    "ratio of the eigenvalues of the modified matrix exceeds it is %d" % (nc, a, kobs, kref)), True, info
+    if a == 1.0:
+        X = ds["X"]
+        try:
+            pca = PCA(n_components=nc, svd_solver="full").fit(X)
+        except Exception as e:                   # noqa
+            pca = None
+            info["pca_skip"] = type(e).__name__
+        if pca is not None:
+            info["pca"] = 1
+            if int(pca.n_components_) != kobs:
+                return ("mixing=1, n_components=%r: PCovR keeps %d components, sklearn's PCA(n_components=%r, svd_solver='full') keeps %d"
+                        % (nc, kobs, nc, int(pca.n_components_))), True, info
+            sv = np.linalg.svd(X, compute_uv=False) ** 2
+            sv = np.concatenate([sv, np.zeros(max(0, ds["n"] - len(sv)))])
+            if P.rel_gap(sv, kobs) >= P.GAP_MIN and int(np.sum(sv[:kobs] > P.TOL)) == kobs:
+                with warnings.catch_warnings():
+                    warnings.simplefilter("ignore")
+                    T = est.transform(X)
+                    xr = est.inverse_transform(T)
+                Tp = pca.transform(X)
+                sc = 1 + np.abs(X).max() ** 2
+                if np.abs(T @ T.T - Tp @ Tp.T).max() > 1e-7 * sc * ds["m"]:
+                    return "mixing=1, n_components=%r: latent coordinates differ from PCA's (max dev of T T^T %.3g)" % (
+                        nc, np.abs(T @ T.T - Tp @ Tp.T).max()), True, info
+                if np.abs(xr - pca.inverse_transform(Tp)).max() > 1e-7 * sc:
+                    return "mixing=1, n_components=%r: reconstruction differs from PCA's" % (nc,), True, info
+    msg, _, _ = X4.optimum_message(est, ds, Yh, a, kobs, 1e-9)
+    if msg:
+        return "n_components=%r resolved to %d: " % (nc, kobs) + msg, True, info
+    # everything else is the fit with the resolved integer
+    rk = fit(ds, dict(base, k=kobs))
+    if "error" in rk:
+        return "fit(n_components=%d) raised %s although n_components=%r resolved to it" % (kobs, rk["error"], nc), True, info
+    diff = X4.state_diff(X4.state_of(est), X4.state_of(rk["est"]))
+    if diff:
+        return ("fitted state for n_components=%r differs from the fit with the resolved integer %d: " % (nc, kobs)
+                + "; ".join(diff[:6])), False, info
+    return None, True, info
 
 
 def run(ctx):
@@ -331,9 +421,15 @@ def run(ctx):
             if base["solver"] == "arpack":
                 base["k"] = rng.randint(1, min(ds["n"], ds["m"]) - 1)
             stats["solvers"][base["solver"]] = stats["solvers"].get(base["solver"], 0) + 1
+        X4.add_junk_W(rng, ds, base)
         grid = [float(x) for x in np.linspace(0.0, 1.0, npts)]
         msg, pts, skipped = grid_oracle(ds, base, grid, stats)
         n_oracle += 1
+        wbad = [(q["a"], q["rec"]["w_ignored_diff"]) for q in pts if q["rec"].get("w_ignored_diff")]
+        if not msg and wbad and not isinstance(skipped, str):
+            report(ctx, "correspondence 'fit reads W only when regressor=precomputed' broken: with an arbitrary W passed to fit "
+                        "(regressor %s) the fitted state differs from the fit without W at mixing %g: %s" % (base["reg"], wbad[0][0], wbad[0][1][:6]),
+                   dict(case=case_replay(ds, base, dict(kind="grid", grid=grid))), found_input=False)
         if isinstance(skipped, str):          # regressor oracle unusable on this data set
             stats["datasets_skipped"][skipped] = stats["datasets_skipped"].get(skipped, 0) + 1
             continue
@@ -474,7 +570,70 @@ def run(ctx):
             stats["histories"]["tied_to_model"] += 1
             cid += 1
         writer.maybe_flush()
+    # ---- fractional n_components / 'mle' (round 5): the resolution rule and the PCA limit
+    nfrac = 60 if ctx.quick else 500
+    fs = stats["fraction"] = dict(run=0, resolved_checked=0, skipped={}, pca_compared=0, mle=0, k_hist={}, tied_to_model=0, in_coq=0)
+    frac_cases = {}
+    for fi in range(nfrac):
+        ds = P.gen_dataset(rng, ctx.quick, family=rng.choice(["tall", "tall", "wide", "square", "rankdef"]))
+        cfg = P.gen_config(rng, ds, reg=rng.choice(REGS))
+        cfg["y1d"] = False
+        cfg["solver"] = rng.choice(["full", "auto"])
+        cfg["a"] = 1.0 if rng.random() < 0.45 else round(rng.uniform(0.02, 0.98), 3)
+        mle = (fi % 7 == 6) and ds["n"] > ds["m"] and cfg["space"] != "sample"
+        u = rng.random()
+        cfg["nc"] = "mle" if mle else (rng.choice([0.5, 0.8, 0.9, 0.95, 0.99]) if u < 0.25 else
+                                       round(rng.uniform(0.03, 0.995), 4) if u < 0.5 else
+                                       round(1.0 - 10.0 ** (-rng.uniform(0.3, 3.0)), 6))
+        if mle:
+            cfg["a"] = 1.0
+        msg, found, info = fraction_message(ds, cfg)
+        n_oracle += 1
+        fs["run"] += 1
+        fs["mle"] += mle
+        if msg:
+            report(ctx, ("C04 fails on the implementation: " if found else "correspondence fractional n_components broken: ") + msg,
+                   dict(case=case_replay(ds, cfg, dict(kind="fraction"))), found_input=found)
+            continue
+        if info.get("skip"):
+            fs["skipped"][info["skip"]] = fs["skipped"].get(info["skip"], 0) + 1
+            continue
+        fs["resolved_checked"] += (not mle)
+        fs["pca_compared"] += info.get("pca", 0)
+        fs["k_hist"][info["kobs"]] = fs["k_hist"].get(info["kobs"], 0) + 1
+        if not mle:
+            # the resolution rule inside Coq (Model/PCovRFrac.v resolve_f) on the model's eigenvalues
+            writer.add_extra(("frac", fi), "c04_frac_report %s %s %s %d%%nat" % (
+                C.fl(float(cfg["nc"])), C.fl(float(ds["n"] - 1)), writer.mat(np.asarray(info["S_full"]).reshape(-1, 1)), info["kobs"]))
+            frac_cases[("frac", fi)] = (ds, cfg)
+        # and the fitted estimator against the programs for the resolved k
+        r, kobs, sample = info["rec"], info["kobs"], info["sample"]
+        cfgk = dict(cfg, k=kobs)
+        env, mn, S_full, _ = P.build_env(ds, r["Ym"], r["Yh"], r["W"], cfgk, sample, mn=info["mn"])
+        gate = P.gate(mn, S_full, kobs, sample=sample)
+        if gate is None and not sample:
+            gate = P.gate(mn, P.top_eig(mn["Kt"])[0], kobs, sample=True)
+        if gate is None:
+            obs, _ = P.observe(r["est"], ds, r["Ym"])
+            writer.add(cid, ds["n"], ds["m"], ds["p"], kobs, ds["q"], sample, env, obs)
+            route_cases[cid] = (ds, cfg, "n_components=%r resolved to %d" % (cfg["nc"], kobs))
+            fs["tied_to_model"] += 1
+            cid += 1
+        else:
+            fs["skipped"][gate] = fs["skipped"].get(gate, 0) + 1
+        writer.maybe_flush()
     reports, broken, extras = P.run_cases(ctx.prop, writer)
+    for tag, (ds, cfg) in frac_cases.items():
+        if tag not in extras:
+            continue
+        flags, cums, _ = extras[tag]
+        if all(flags) and len(flags) == 1:
+            fs["in_coq"] += 1
+        else:
+            report(ctx, "correspondence resolve_f (Model/PCovRFrac.v) vs the implementation's n_components_ broken for n_components=%r "
+                        "(cumulative ratios of the model %s)" % (cfg["nc"], cums),
+                   dict(case=case_replay(ds, cfg, dict(kind="fraction")), correspondence="c04_frac_report (Model/PCovRFrac.v)"),
+                   found_input=False)
     agree = 0
     res_max = [0.0] * len(P.RESIDUAL_NAMES)
     own_dev = 0.0
@@ -574,6 +733,10 @@ def replay(ctx, obj):
         return 1 if msg else 0
     ds = X4.ds_from_json(c["dataset"])
     cfg = c["config"]
+    if c.get("kind") == "fraction":
+        msg, found, info = fraction_message(ds, cfg)
+        print("replay:", msg or "property holds on this input now")
+        return 1 if msg else 0
     kind = c.get("kind", "grid")
     if kind == "history":
         hist = X4.hist_from_json(c["history"])
